@@ -1,6 +1,9 @@
 package main
 
 import (
+	"go/constant"
+	"go/token"
+
 	"golang.org/x/tools/go/ssa"
 )
 
@@ -38,7 +41,67 @@ func (p *Prog) info(fn *ssa.Function) *FuncInfo {
 		fi.reach[i] = r
 	}
 	p.funcInfo[fn] = fi
+	computeThreading(fn)
 	return fi
+}
+
+// threadMap: jump threading for branches on a boolean phi of constants
+// (`found := false; for … { if c { found = true; break } }; if !found {…}`).
+// For such a block B (only phis + the If), an edge P->B continues to exactly one
+// successor of B, determined by the constant P contributes to the phi.
+// threadMap[B][P] = successor slot taken when entering B from P.
+var threadMap = map[*ssa.BasicBlock]map[*ssa.BasicBlock]int{}
+
+func computeThreading(fn *ssa.Function) {
+	for _, b := range fn.Blocks {
+		if len(b.Instrs) == 0 {
+			continue
+		}
+		iff, ok := b.Instrs[len(b.Instrs)-1].(*ssa.If)
+		if !ok {
+			continue
+		}
+		onlyPhis := true
+		for _, in := range b.Instrs[:len(b.Instrs)-1] {
+			if _, ok := in.(*ssa.Phi); !ok {
+				onlyPhis = false
+			}
+		}
+		if !onlyPhis {
+			continue
+		}
+		cond := iff.Cond
+		neg := false
+		if u, ok := cond.(*ssa.UnOp); ok && u.Op == token.NOT {
+			// not possible inside a phi-only block, kept for clarity
+			cond, neg = u.X, true
+		}
+		phi, ok := cond.(*ssa.Phi)
+		if !ok || phi.Block() != b {
+			continue
+		}
+		m := map[*ssa.BasicBlock]int{}
+		okAll := true
+		for i, e := range phi.Edges {
+			c, ok := e.(*ssa.Const)
+			if !ok || c.Value == nil || c.Value.Kind() != constant.Bool {
+				okAll = false
+				break
+			}
+			v := constant.BoolVal(c.Value)
+			if neg {
+				v = !v
+			}
+			slot := 1
+			if v {
+				slot = 0
+			}
+			m[b.Preds[i]] = slot
+		}
+		if okAll {
+			threadMap[b] = m
+		}
+	}
 }
 
 // canReach: may control flow from just after a to b (a executes before b on some path)?
@@ -135,6 +198,15 @@ func reachFrom(starts []*ssa.BasicBlock, cut map[Edge]bool) map[*ssa.BasicBlock]
 			if cut[Edge{b, i}] {
 				continue
 			}
+			if th, ok := threadMap[s]; ok {
+				if slot, ok := th[b]; ok {
+					// entering the phi-branch block s from b continues to exactly one successor
+					if !cut[Edge{s, slot}] {
+						stack = append(stack, s.Succs[slot])
+					}
+					continue
+				}
+			}
 			stack = append(stack, s)
 		}
 	}
@@ -158,6 +230,14 @@ func pathTo(start, target *ssa.BasicBlock, cut map[Edge]bool) []*ssa.BasicBlock 
 		for i, s := range b.Succs {
 			if cut[Edge{b, i}] {
 				continue
+			}
+			if th, ok := threadMap[s]; ok {
+				if slot, ok := th[b]; ok {
+					if cut[Edge{s, slot}] {
+						continue
+					}
+					s = s.Succs[slot]
+				}
 			}
 			if _, ok := prev[s]; !ok {
 				prev[s] = b
